@@ -140,10 +140,10 @@ def check_object(ctx, obj, case, label, brk, pts, H_ref, S_ref, T_ref, table):
         f('S-at-Tref', 'SoR(T_ref=%r) = %r, S_ref = %r' % (T_ref, gotS, S_ref))
     # (d) constant extrapolation outside the table
     for T in pts:
-        if T < Ts[0] and not close(obj.get_CpoR(T), obj.get_CpoR(Ts[0]), 1e-12 * max(1.0, abs(obj.get_CpoR(Ts[0])))):
+        if T < Ts[0] and not close(obj.get_CpoR(T), obj.get_CpoR(Ts[0]), 1e-12 * max(1.0, max(abs(c) for c in Cps))):
             f('extrapolation-below', 'CpoR(%r) = %r but CpoR(T_first) = %r' % (T, obj.get_CpoR(T), obj.get_CpoR(Ts[0])))
             break
-        if T > Ts[-1] and not close(obj.get_CpoR(T), obj.get_CpoR(Ts[-1]), 1e-12 * max(1.0, abs(obj.get_CpoR(Ts[-1])))):
+        if T > Ts[-1] and not close(obj.get_CpoR(T), obj.get_CpoR(Ts[-1]), 1e-12 * max(1.0, max(abs(c) for c in Cps))):
             f('extrapolation-above', 'CpoR(%r) = %r but CpoR(T_last) = %r' % (T, obj.get_CpoR(T), obj.get_CpoR(Ts[-1])))
             break
     # (c) integrals of the object's own Cp/R, from T_ref to every point and between neighbours
@@ -334,6 +334,7 @@ def check_table(ctx, case):
     # rest with the reference values merged in - and (i) with an extra point that is deleted again: both are the correlation above
     if 'group' in allres:
         ref_vals = allres['group']
+        ref_obj = objs['group']
         variants = {}
         try:
             if n >= 2:
@@ -369,7 +370,11 @@ def check_table(ctx, case):
                         if k == 1:
                             # S/R comes from numerical quadrature of Cp/(RT) (scipy quad): two routes integrate over different
                             # intervals; same allowance as the integral clause (c)
-                            tolv = 1e-4 * max(abs(c) for c in Cps) * 3.0 * math.log(max(pts[-1], Ts[-1]) / min(pts[0], Ts[0])) + 1e-7
+                            # (yardstick: the largest |Cp/R| the fitted spline takes between the points, which for unevenly
+                            # spaced tables is far above the tabulated values)
+                            grid = np.linspace(min(pts[0], Ts[0]), max(pts[-1], Ts[-1]), 600)
+                            peak = max(float(np.max(np.abs(ref_obj.get_CpoR(grid)))), max(abs(c) for c in Cps))
+                            tolv = 1e-4 * peak * 3.0 * math.log(max(pts[-1], Ts[-1]) / min(pts[0], Ts[0])) + 1e-7
                         if not close(x, y, tolv):
                             ctx.fail('constructions-disagree:%s' % vname, '%s(%r): built at once %r, %s %r' % (('HoRT', 'SoR', 'CpoR')[k], T, x, vname, y))
                             raise StopIteration
